@@ -108,7 +108,7 @@ def correspond(rep, tier, seed):
 def search(rep, tier, seed, reason=""):
     from props.parts import sendflow
     for k in range(3 if tier == "quick" else 10):
-        for prof in ("idle", "reset", "queue"):
+        for prof in ("idle", "pushidle", "reset", "queue"):
             scs, _ = sendflow.gen_scenarios(seed * 6151 + k * 17 + len(prof), 120, 120, prof, snap=True)
             before = len(rep.violations)
             if store.oracle_store(rep, scs) > 0 and len(rep.violations) > before:
